@@ -16,6 +16,24 @@ theorem wrap64_add_wrap64' (a b : Int) : wrap64 (a + wrap64 b) = wrap64 (a + b) 
 theorem wrap64_id (a : Int) (h1 : -9223372036854775808 ≤ a) (h2 : a < 9223372036854775808) : wrap64 a = a := by
   unfold wrap64 two63; omega
 
+theorem hasDup_false_of_nodup {α : Type} [DecidableEq α] : ∀ (l : List α), l.Nodup → hasDup l = false
+  | [], _ => rfl
+  | x :: xs, h => by
+    rw [List.nodup_cons] at h
+    simp only [hasDup, Bool.or_eq_false_iff]
+    exact ⟨by simpa using h.1, hasDup_false_of_nodup xs h.2⟩
+
+theorem not_present_get (a : Accts) (i : Id) (h : present a i = false) : get a i = Acct.zero := by
+  induction a with
+  | nil => rfl
+  | cons x xs ih =>
+    obtain ⟨k, v⟩ := x
+    simp only [present, List.any_cons, Bool.or_eq_false_iff] at h
+    have hk : k ≠ i := by simpa using h.1
+    show (if k = i then v else get xs i) = Acct.zero
+    rw [if_neg hk]
+    exact ih (by simpa [present] using h.2)
+
 /-! ### frames -/
 
 theorem checkForCurrent_frame (g : GS) (p : PTxn) :
@@ -159,9 +177,9 @@ theorem Inv_init (cfg : Cfg) (prior : St) (bcost : Int) (hb : wrap64 bcost = bco
 theorem Inv_unchanged {cfg : Cfg} {prior : St} {bcost : Int} {g g' : GS} (h : Inv cfg prior bcost g) (u : Unchanged g g') :
     Inv cfg prior bcost g' := by
   obtain ⟨h1, h2, h3, h4, h5, h6, h7⟩ := h
-  refine ⟨?_, ?_, ?_, ?_, ?_, ?_, ?_⟩ <;> rw [u.incl] <;> try rw [u.st] <;> try rw [u.trace]
-  all_goals first | assumption | (rw [u.cost]; assumption) | skip
-  · rw [u.st, u.trace]; exact h1
+  obtain ⟨u1, u2, u3, u4⟩ := u
+  exact ⟨by rw [u2, u1, u3]; exact h1, by rw [u2]; exact h2, by rw [u2]; exact h3, by rw [u2]; exact h4,
+    by rw [u4, u2]; exact h5, by rw [u2, u4]; exact h6, by rw [u2, u4]; exact h7⟩
 
 theorem any_false_not_mem (l : List Entry) (k : Key) (h : l.any (fun e => e.key = k) = false) : k ∉ l.map (·.key) := by
   intro hm
@@ -410,18 +428,18 @@ theorem builtinLoop_spec (cfg : Cfg) (waitOver : Bool) (prior : St) : ∀ (bs : 
     simp only [builtinLoop] at h
     split at h
     · cases h
-    · by_cases hrej : (step cfg.feeOn g.st { b.txn with sender := cfg.miner, nonce := selfNonce g.st cfg.miner } (b.res g.st)).2 = Status.rejected
-      · simp only [hrej, if_true] at h
-        obtain ⟨ents, h1, h2, h3, h4⟩ := ih g (n + 1) g' h hr
+    · split at h
+      · obtain ⟨ents, h1, h2, h3, h4⟩ := ih g (n + 1) g' h hr
         exact ⟨ents, h1, Sub.skip _ h2, h3, h4⟩
-      · simp only [hrej, if_false] at h
-        let t : Txn := { b.txn with sender := cfg.miner, nonce := selfNonce g.st cfg.miner }
-        let e : Entry := ⟨Key.builtin k, { b with txn := t }, (step cfg.feeOn g.st t (b.res g.st)).2⟩
-        have hr' := reexec_append cfg.feeOn e g.incl prior g.st _ _ hr hrej
+      · rename_i hrej
+        have hr' := reexec_append cfg.feeOn
+          ⟨Key.builtin k, builtinTxn cfg g.st b, (step cfg.feeOn g.st (builtinTxn cfg g.st b).txn ((builtinTxn cfg g.st b).res g.st)).2⟩
+          g.incl prior g.st _ _ hr hrej
         obtain ⟨ents, h1, h2, h3, h4⟩ := ih _ (n + 1) g' h (by
-          show reexec cfg.feeOn prior (g.incl ++ [e]) = _
-          rw [hr']; simp [e])
-        refine ⟨e :: ents, ?_, Sub.take e (k, b) rfl rfl rfl rfl h2, h3, ?_⟩
+          simp only
+          rw [hr']; simp)
+        refine ⟨⟨Key.builtin k, builtinTxn cfg g.st b, (step cfg.feeOn g.st (builtinTxn cfg g.st b).txn ((builtinTxn cfg g.st b).res g.st)).2⟩ :: ents, ?_,
+          Sub.take ⟨Key.builtin k, builtinTxn cfg g.st b, (step cfg.feeOn g.st (builtinTxn cfg g.st b).txn ((builtinTxn cfg g.st b).res g.st)).2⟩ (k, b) rfl rfl rfl rfl h2, h3, ?_⟩
         · rw [h1]; simp
         · intro x hx
           rw [List.mem_cons] at hx
@@ -468,6 +486,16 @@ structure GenSpec (cfg : Cfg) (prior : St) (bi : Builtins) (g : GS) : Prop where
             (∀ e ∈ ents, e.p.txn.sender = cfg.miner)
   bcosts : ∀ b ∈ bi.list, b.2.cost.isSome
 
+theorem poolPhase_inv (cfg : Cfg) (prior : St) (pool : List PTxn) (bi : Builtins) (fuel : Nat) :
+    Inv cfg prior (builtinsCost bi.list) (poolPhase cfg prior pool bi fuel).1 := by
+  have h0 : Inv cfg prior (builtinsCost bi.list) (GS.init prior (builtinsCost bi.list)) :=
+    Inv_init cfg prior _ (by rw [builtinsCost_eq, wrap64_idem])
+  have h1 := iterate_inv pool h0
+  unfold poolPhase
+  split
+  · exact h1
+  · exact currentLoop_inv fuel 0 h1
+
 theorem generate_spec (cfg : Cfg) (prior : St) (pool : List PTxn) (bi : Builtins) (waitOver : Bool) (fuel : Nat) (g : GS)
     (h : generate cfg prior pool bi waitOver fuel = .ok g) : GenSpec cfg prior bi g := by
   unfold generate at h
@@ -476,10 +504,7 @@ theorem generate_spec (cfg : Cfg) (prior : St) (pool : List PTxn) (bi : Builtins
   · rename_i hbc
     split at h
     · cases h
-    · have h0 : Inv cfg prior (builtinsCost bi.list) (GS.init prior (builtinsCost bi.list)) :=
-        Inv_init cfg prior _ (by rw [builtinsCost_eq, wrap64_idem])
-      have h1 := iterate_inv pool h0
-      have h2 := currentLoop_inv fuel 0 h1
+    · have h2 := poolPhase_inv cfg prior pool bi fuel
       obtain ⟨ents, e1, e2, e3, e4⟩ := builtinLoop_spec cfg waitOver prior _ _ _ g h h2.reex
       refine ⟨e3, ⟨_, ents, h2, e1, e2, e4⟩, ?_⟩
       intro b hb
